@@ -64,28 +64,32 @@ Proof.
   repeat split; try tauto.
 Qed.
 
-(* Bridge: every case on which the model and the implementation agree satisfies the property's
-   executable predicate. *)
+(* Bridge: every case (one token, one time, any list of candidate codes with the implementation's
+   answers) on which the model and the implementation agree satisfies the property's executable
+   predicate. *)
 Theorem C29_agree_implies_property : forall c, agree c = true -> pcheck c = true.
 Proof.
-  intros [ovf a d key step chal secs nanos out] Ha. cbn [agree pcheck] in *.
-  apply outcome_eqb_eq in Ha. subst out.
-  destruct (N.ltb_spec 0 step) as [Hs|_]; [|reflexivity].
-  destruct (N.leb_spec step secs) as [Ht|_]; [|reflexivity]. cbn [andb].
-  rewrite C29_verify_is_spec by assumption. apply outcome_eqb_refl.
+  intros [ovf a d key step secs nanos obs] Ha.
+  destruct (N.ltb_spec 0 step) as [Hs|Hs];
+    [|cbn [pcheck]; apply N.ltb_ge in Hs; rewrite Hs; reflexivity].
+  destruct (N.leb_spec step secs) as [Ht|Ht];
+    [|cbn [pcheck]; apply N.leb_gt in Ht; rewrite Ht, andb_false_r; reflexivity].
+  apply pcheck_iff; [exact Hs | exact Ht |].
+  intros chal out Hin. rewrite <- (proj1 (agree_iff _ _ _ _ _ _ _ _) Ha chal out Hin).
+  apply C29_verify_is_spec; assumption.
 Qed.
 
-(* what a passing pcheck says about the implementation's recorded answer *)
-Theorem C29_pcheck_sound : forall ovf a d key step chal secs nanos out,
-  pcheck (CV ovf a d key step chal secs nanos out) = true ->
-  0 < step -> step <= secs ->
+(* what a passing pcheck says about the implementation's recorded answers *)
+Theorem C29_pcheck_sound : forall ovf a d key step secs nanos obs chal out,
+  pcheck (CV ovf a d key step secs nanos obs) = true ->
+  0 < step -> step <= secs -> In (chal, out) obs ->
   exists b, out = OBool b /\
     (b = true <-> chal = rfc_totp a d key step secs \/ chal = rfc_totp a d key step (secs - step)).
 Proof.
-  intros ovf a d key step chal secs nanos out Hp Hs Ht. cbn [pcheck] in Hp.
-  apply N.ltb_lt in Hs. apply N.leb_le in Ht. rewrite Hs, Ht in Hp. cbn [andb] in Hp.
-  apply outcome_eqb_eq in Hp. exists (accept_spec a d key step chal secs).
-  split; [exact Hp | apply accept_spec_iff].
+  intros ovf a d key step secs nanos obs chal out Hp Hs Ht Hin.
+  exists (accept_spec a d key step chal secs). split.
+  - exact (proj1 (pcheck_iff _ _ _ _ _ _ _ _ Hs Ht) Hp chal out Hin).
+  - apply accept_spec_iff.
 Qed.
 
 (* ------------------------------------------------------------------ the code BEFORE the fix
